@@ -19,6 +19,7 @@ ID = "C12"
 LEAN_TARGETS = ["PV.Props.C12"]
 # T-C tie (DESIGN 2.3): kernels traced from the current source are proved equal to the model over the reals
 EQUIV = {'PV.Equiv.Astro': ['gmst_eq']}
+EQUIV.update({'PV.Equiv.TranslatedTime': ['iso_j2000', 'j2000_minutes', 'time_jdays2000', 'jdays2000_of_dt2np', 'jdays2000_datetime', 'jdays2000_dt64', 'jdays2000_objarr', 'jdays2000_dtarr', 'jdays_of_jdays2000', 'tz_unaware_eq', 'tz_unaware_same_instant']})      # T-D
 RULE = ("calendar: every civil day 1900-01-01..2100-12-31 (complete) model vs numpy day count and vs the Fliegel-Van Flandern "
         "JDN; instants: random UTC instants 1900-2100 incl. leap days, century years, year/day boundaries, sub-second, in "
         "every representation (datetime, datetime64[s|ms|us|ns], object arrays, arrays); jdays2000 compared bit-exactly, "
